@@ -73,6 +73,9 @@ pub(crate) struct Circuit {
     success_count: usize,
     total_count: usize,
     slow_call_count: usize,
+    // Outcomes `(is_failure, is_slow)` of the calls currently in the count-based
+    // window, oldest first; the counters above are the aggregates of this queue.
+    count_window: VecDeque<(bool, bool)>,
     // Trial calls that completed successfully since the circuit became half-open.
     // Kept separately from the window statistics so that half-open decisions do
     // not depend on the window type or on window eviction.
@@ -105,6 +108,7 @@ impl Circuit {
             total_count: 0,
             slow_call_count: 0,
             half_open_successes: 0,
+            count_window: VecDeque::new(),
             call_records: VecDeque::new(),
         }
     }
@@ -165,6 +169,36 @@ impl Circuit {
         }
     }
 
+    /// Record one call outcome in the count-based window, evicting the oldest
+    /// outcome once more than `sliding_window_size` calls are tracked so that the
+    /// counters always describe the last N calls.
+    fn record_count_based(&mut self, window_size: usize, is_failure: bool, is_slow: bool) {
+        self.count_window.push_back((is_failure, is_slow));
+        self.total_count += 1;
+        if is_failure {
+            self.failure_count += 1;
+        } else {
+            self.success_count += 1;
+        }
+        if is_slow {
+            self.slow_call_count += 1;
+        }
+
+        while self.count_window.len() > window_size.max(1) {
+            if let Some((was_failure, was_slow)) = self.count_window.pop_front() {
+                self.total_count -= 1;
+                if was_failure {
+                    self.failure_count -= 1;
+                } else {
+                    self.success_count -= 1;
+                }
+                if was_slow {
+                    self.slow_call_count -= 1;
+                }
+            }
+        }
+    }
+
     /// Calculate statistics from time-based window.
     fn time_based_stats(&self) -> (usize, usize, usize, usize) {
         let mut total = 0;
@@ -200,11 +234,7 @@ impl Circuit {
         // Update statistics based on window type
         match config.sliding_window_type {
             SlidingWindowType::CountBased => {
-                self.success_count += 1;
-                self.total_count += 1;
-                if is_slow {
-                    self.slow_call_count += 1;
-                }
+                self.record_count_based(config.sliding_window_size, false, is_slow);
             }
             SlidingWindowType::TimeBased => {
                 if let Some(window_duration) = config.sliding_window_duration {
@@ -276,11 +306,7 @@ impl Circuit {
         // Update statistics based on window type
         match config.sliding_window_type {
             SlidingWindowType::CountBased => {
-                self.failure_count += 1;
-                self.total_count += 1;
-                if is_slow {
-                    self.slow_call_count += 1;
-                }
+                self.record_count_based(config.sliding_window_size, true, is_slow);
             }
             SlidingWindowType::TimeBased => {
                 if let Some(window_duration) = config.sliding_window_duration {
@@ -460,6 +486,7 @@ impl Circuit {
         self.total_count = 0;
         self.slow_call_count = 0;
         self.half_open_successes = 0;
+        self.count_window.clear();
         self.call_records.clear();
     }
 
